@@ -80,6 +80,7 @@ Act(e) == LET a == e.args IN
      [] e.ev = "CopySwap"   -> CopyStep("CopySwap") /\ DumpMatches(e.orig, acc, val, wq, rec, rel) /\ (copyOk' <=> e.copy = e.orig)
      [] e.ev = "Flush"      -> Flush /\ DumpMatches(e.disk, acc, val, wq, rec, rel)
      [] e.ev = "GC"         -> GC
+     [] e.ev = "ReadComp"   -> ReadComp(a.d)
      [] e.ev = "ResetStaking" -> ResetStaking
      [] e.ev = "ReadRecord" -> ReadRecord(a.a, a.v)
      [] e.ev = "Restart"    -> Restart /\ DumpMatches(e.live, acc', val', wq', rec', rel')
